@@ -4,7 +4,6 @@ import (
 	"fmt"
 	"path"
 	"reflect"
-	"strconv"
 	"strings"
 
 	"github.com/iancoleman/strcase"
@@ -122,7 +121,6 @@ func installNative(c *Ctx) {
 	reg("strings.ToLower", strings.ToLower)
 	reg("strings.ToUpper", strings.ToUpper)
 	reg("strings.Index", strings.Index)
-	reg("strconv.Itoa", strconv.Itoa)
 	reg("path.Join", path.Join)
 	reg("path.Split", path.Split)
 	reg("path.Base", path.Base)
